@@ -134,9 +134,13 @@ func NASDecode(ue *RanUeContext, securityHeaderType uint8, payload []byte) (msg 
 		payload = payload[1:]
 
 		// TODO: Support for ue has nas connection in both accessType
-		if err = security.NASEncrypt(ue.CipheringAlg, ue.KnasEnc, ue.DLCount.Get(), security.Bearer3GPP,
-			security.DirectionUplink, payload); err != nil {
-			return nil, err
+		// only the "integrity protected and ciphered" header types carry a ciphered message
+		if securityHeaderType == nas.SecurityHeaderTypeIntegrityProtectedAndCiphered ||
+			securityHeaderType == nas.SecurityHeaderTypeIntegrityProtectedAndCipheredWithNew5gNasSecurityContext {
+			if err = security.NASEncrypt(ue.CipheringAlg, ue.KnasEnc, ue.DLCount.Get(), security.Bearer3GPP,
+				security.DirectionDownlink, payload); err != nil {
+				return nil, err
+			}
 		}
 	}
 	err = msg.PlainNasDecode(&payload)
